@@ -89,7 +89,8 @@ def handle (j : Json) : Json :=
     ("result", Json.str (match res with
       | Except.ok st => statusStr st
       | Except.error Err.valueError => "error:ValueError"
-      | Except.error Err.connection => "error:ConnectionError")),
+      | Except.error Err.connection => "error:ConnectionError"
+      | Except.error Err.zeroDivision => "error:ZeroDivisionError")),
     ("archive", match w'.archive with
       | some b => bytesJson b
       | none => Json.null),
